@@ -103,6 +103,7 @@ var (
 			ast.StringBound /* <= */, ast.AnyBound),
 		symbols.StringReplace: symbols.NewFunType(
 			ast.StringBound /* <= */, ast.StringBound),
+		symbols.MapGet:          symbols.NewFunType(varY /* <= */, mapOfXY, varX),
 		symbols.StructGet:       symbols.NewFunType(ast.AnyBound /* <= */, ast.AnyBound, ast.NameBound),
 		symbols.NumberToString:  symbols.NewFunType(ast.StringBound /* <= */, ast.NumberBound),
 		symbols.Float64ToString: symbols.NewFunType(ast.StringBound /* <= */, ast.Float64Bound),
